@@ -824,8 +824,15 @@ func (f *filterQuery) Select(t iterator) NodeNavigator {
 		}
 		node = node.Copy()
 
+		// The predicate is evaluated with the candidate as context node; afterwards
+		// the context cursor is put back, so that what follows the filter in the
+		// same context (the other operand of a comparison, of and/or ...) still
+		// starts from the original context node.
+		saved := t.Current().Copy()
 		t.Current().MoveTo(node)
-		if f.do(t) {
+		ok := f.do(t)
+		t.Current().MoveTo(saved)
+		if ok {
 			// fix https://github.com/antchfx/htmlquery/issues/26
 			// Calculate and keep the each of matching node's position in the same depth.
 			level := getNodeDepth(f.Input)
